@@ -32,13 +32,16 @@ type Case struct {
 
 var sub = evid.Register("chunking", run)
 
-func TestPropChunking(t *testing.T) {
-	rapid.Check(t, func(t *rapid.T) {
-		kind, data, fields := streams.Gen(t)
-		c := Case{Kind: kind, B64: base64.StdEncoding.EncodeToString(data), Fields: fields, S: gen.GenSchedule(t, len(data), "sched")}
-		sub.Check(t, c)
-	})
+func propChunking(t *rapid.T) {
+	kind, data, fields := streams.Gen(t)
+	c := Case{Kind: kind, B64: base64.StdEncoding.EncodeToString(data), Fields: fields, S: gen.GenSchedule(t, len(data), "sched")}
+	sub.Check(t, c)
 }
+
+func TestPropChunking(t *testing.T) { rapid.Check(t, propChunking) }
+
+// FuzzChunking drives the same property with Go's coverage-guided fuzzer (thorough tier).
+func FuzzChunking(f *testing.F) { f.Fuzz(rapid.MakeFuzz(propChunking)) }
 
 func TestReplay(t *testing.T) { evid.Replay(t) }
 
